@@ -75,6 +75,8 @@ fn matched_case(out: &mut Out, id: &str, tags: &[&str], last_n: u64, start: u64,
     );
     // independent oracle: an accepted response has exactly the requested shape
     let oracle = match &r {
+        // total difficulties that overflow are rejected by the handlers before this function is called
+        None if hs.iter().any(|h| h.td().is_none()) => Ok(()),
         None => {
             let class = if hs.iter().any(|h| h.td().is_none()) { "C10-total-difficulty-overflow" }
                 else if hs.iter().any(|h| h.num == u64::MAX) { "C10-matched-number-overflow" }
@@ -392,7 +394,8 @@ pub(crate) fn handler_case(out: &mut Out, id: &str, tags: &[&str], c: &mut Clien
     } else if changed && !honest && !identical_to_honest {
         Err("[C01-accepted-mutated] trusted state changed on a response that is not the honest answer to the outstanding request".to_string())
     } else if honest && (o.ban.is_some()) {
-        Err(format!("[C05-honest-rejected] the honest response was rejected with status {}", o.ban.unwrap()))
+        let class = if descr.contains("sampled [] ") && !descr.contains("small-gap-regime") && o.ban == Some(400) { "C05-honest-rejected-no-sample-in-sampled-gap" } else { "C05-honest-rejected" };
+        Err(format!("[{}] the honest response was rejected with status {}", class, o.ban.unwrap()))
     } else if honest && !changed && find_request(&o).is_none() {
         Err("[C05-honest-ignored] the honest response neither changed the proved state nor triggered a re-check".to_string())
     } else { Ok(()) };
@@ -415,7 +418,8 @@ fn part_b(rng: &mut Rng, n: u64, out: &mut Out) {
         let plan = if variable { legal_plan(rng, epochs, 2, 9, pbits) } else { flat_plan(epochs, rng.range(3, 12), rng.range(1, 50)) };
         let total = plan_blocks(&plan);
         if total < 4 { continue; }
-        let chain = Rc::new(SynChain::new(plan, total, 1));
+        let act = *rng.pick(&[0u64, 0, 1, 2]);
+        let chain = Rc::new(SynChain::new_with_activation(plan, total, 1, act));
         let tip = rng.range(2, total - 1);
         let first = if rng.chance(1, 2) { None } else {
             let gap = match rng.below(4) { 0 => rng.range(2, last_n + 1), 1 => last_n + 1, _ => rng.range(2, tip) };
@@ -438,8 +442,9 @@ fn part_b(rng: &mut Rng, n: u64, out: &mut Out) {
                 headers: numbers.iter().map(|x| chain.packed_vheader(*x)).collect(),
                 proof: chain.proof(plan.last, &numbers).into_iter().collect(),
             };
-            let descr_base = format!("chain of {} blocks ({} epochs, {} difficulty), last_n={}, previously proven={:?}, announced tip={}, request start={} with {} difficulties; honest response = reorg {:?} sampled {:?} last-N {:?}",
-                total, epochs, if variable { "variable" } else { "flat" }, last_n, first, tip, Unpack::<u64>::unpack(&req.start_number()), req.difficulties().len(), plan.reorg, plan.sampled, plan.last_n);
+            let descr_base = format!("chain of {} blocks ({} epochs, {} difficulty), last_n={}, previously proven={:?}, announced tip={}, request start={} with {} difficulties{}; honest response = reorg {:?} sampled {:?} last-N {:?}",
+                total, epochs, if variable { "variable" } else { "flat" }, last_n, first, tip, Unpack::<u64>::unpack(&req.start_number()), req.difficulties().len(),
+                if plan.last - Unpack::<u64>::unpack(&req.start_number()) <= last_n { " (small-gap-regime)" } else { "" }, plan.reorg, plan.sampled, plan.last_n);
             if m == 0 {
                 handler_case(out, &format!("handler-{}-honest", i), &["handler", "honest", shape], &mut c, peer, &base, true, true, tau, &descr_base);
             } else {
